@@ -9,7 +9,7 @@ Calls == {[m |-> "limit", n |-> n] : n \in {0, 5}} \cup {[m |-> "offset", n |-> 
          \cup {[m |-> "slice", start |-> p[1], stop |-> p[2]] : p \in {<<2, 7>>, <<-1, 4>>, <<2, -1>>, <<0, 4>>}}
          \cup {[m |-> "fetch_next", n |-> 6], [m |-> "top", n |-> 2, bad |-> FALSE]}
 SetopCalls == {c \in Calls : c.m \in {"limit", "offset"}}
-Positions == {"top", "subquery", "setop-operand", "setop"}
+Positions == {"top", "subquery", "setop-operand", "setop", "cte", "in-subquery"}
 
 VARIABLES b, hist, pos, ordered
 Base(o) == IF o THEN [Empty EXCEPT !.from = <<"T1">>, !.sel = << [k |-> "fld", src |-> "T1", n |-> "a"] >>,
